@@ -15,6 +15,9 @@ RULE = "rule instance = probe program (misuse or twin or positive) / public sign
 REG = re.compile(r"'(\^\d+\.Named\(DefId\((\d+:\d+)|\^\d+\.Anon\(?\d*|\w+/#\d+|static|\{erased\})")
 
 
+from .. import facts
+
+
 def regions(s):
     out = set()
     for m in REG.finditer(s):
@@ -135,6 +138,53 @@ def run(ctx, config='rel-all'):
             if not (ro <= fp):
                 ctx.violation('R2', path, 'not-tied-to-self', 'Bump method %s returns region(s) %s not tied to the &self borrow %s' % (path, sorted(ro), sorted(fp)))
     ctx.floor('R2', nsig, 60, 'public functions whose return type mentions a region')
+    # ---- R4 a source that is only copied from is not borrowed for the arena lifetime: in no impl of a collection / box type may
+    # the arena lifetime of Self be the lifetime of a reference to (or Cow of) non-arena data taken as a trait argument or a
+    # parameter -- the result would be typed as borrowing the source it merely copied (correct programs stop compiling)
+    nsrc = 0
+
+    def self_lifetimes(selfty):
+        return set(re.findall(r"'([A-Za-z_]\w*)", selfty or '')) - {'static'}
+
+    def foreign_borrows(text, lts):
+        """references / Cows in `text` whose lifetime is one of lts and whose referent is not an arena or an arena-backed type"""
+        out = []
+        for m in re.finditer(r"&'([A-Za-z_]\w*)(?:/#\d+)? (?:mut )?([^,)>]+)", text):
+            lt, ref = m.group(1), m.group(2).strip()
+            head = ref.split('<')[0]
+            if lt in lts and not (head == 'Bump' or head.endswith('::Bump') or head in db.adt or head == 'Self'):
+                out.append(m.group(0))
+        for m in re.finditer(r"Cow<'([A-Za-z_]\w*)(?:/#\d+)?, [^>]*>", text):
+            if m.group(1) in lts:
+                out.append(m.group(0))
+        return out
+    for im in db.impls:
+        if not im.get('adt') or im['adt'] not in db.adt or im['adt'] == 'Bump' or not im.get('trait_full'):
+            continue
+        lts = self_lifetimes(im.get('self'))
+        if not lts:
+            continue
+        tf = im['trait_full']
+        i = tf.find(' as ')
+        targs = tf[i + 4:] if i >= 0 else ''
+        nsrc += 1
+        bad = foreign_borrows(targs, lts)
+        if bad:
+            ctx.violation('R4', im['adt'], 'source-borrowed-for-arena-lifetime:%s' % targs.rstrip('>').split('::')[-1][:60], 'impl %s ties the arena lifetime of %s to borrowed source data %s: a collection that only copies from its argument would be typed as borrowing it' % (tf, im['adt'], bad), loc(im.get('span')))
+        else:
+            ctx.ok('R4', '%s: no trait argument borrows foreign data for the arena lifetime' % tf[:120], 'impl header')
+    for path, m in sorted(db.fns.items()):
+        if not m.get('reachable') or not m.get('sig') or not m.get('impl_self') or m.get('impl_adt') not in db.adt or m.get('impl_adt') == 'Bump' or m.get('unsafe'):
+            continue
+        lts = self_lifetimes(m['impl_self'])
+        sp = split_sig(m['sig'])
+        if not lts or not sp:
+            continue
+        nsrc += 1
+        bad = foreign_borrows(sp[0], lts)
+        if bad:
+            ctx.violation('R4', path, 'source-borrowed-for-arena-lifetime', 'fn %s takes %s: source data borrowed for the arena lifetime of %s' % (path, bad, m['impl_self']))
+    ctx.floor('R4', nsrc, 150, 'impl headers and method signatures of arena-backed types examined for sources borrowed for the arena lifetime')
     for name in ('reset', 'iter_allocated_chunks'):
         b = arena.bump_method(db, name)
         if b is None:
@@ -212,6 +262,12 @@ def run(ctx, config='rel-all'):
                     hit = reaches(cg, b['id'], arena_entries)
                     if hit:
                         offenders.append((b['id'], hit))
+                # the drop glue of the fields runs wherever a value of the type is dropped, Drop impl or not
+                for f in a['fields']:
+                    for gid in facts.drop_glue_bodies(db, f['ty']):
+                        hit = [gid] if gid in arena_entries else reaches(cg, gid, arena_entries)
+                        if hit:
+                            offenders.append(('<drop glue of field %s: %s>' % (f['name'], f['ty']), [gid] + [h for h in hit if h != gid]))
                 if offenders:
                     for fnid, hit in offenders[:3]:
                         ctx.violation('R3', a['path'], '%s-but-uses-arena:%s' % (tr, fnid.split('::')[-1]), '%s is %s, yet %s reaches the arena through %s: it could allocate from a Bump another thread is using' % (a['path'], tr, fnid, ' -> '.join(hit[-3:])))
@@ -273,6 +329,16 @@ def call_graph(db):
             tp = t['callee'].get('path') or ''
             if tp.startswith('alloc::Alloc::'):
                 outs.add('<arena via Alloc trait>')
+            # drop_in_place::<X>(..) runs the drop glue of X
+            if p and p.endswith('ptr::drop_in_place'):
+                for ga in (t['callee'].get('gargs') or []):
+                    outs.update(facts.drop_glue_bodies(db, str(ga)))
+        # a Drop terminator runs the drop glue of the dropped type: its own Drop impl and those of the values it owns
+        # (also on cleanup paths - a destructor that runs while unwinding runs on the same thread)
+        for bl in b['blocks']:
+            t = bl['term']
+            if t['k'] == 'drop' and t.get('needs_drop', True):
+                outs.update(facts.drop_glue_bodies(db, t.get('ty') or ''))
         g[b['id']] = outs
     # closures are reachable from the function that creates them
     for b in db.fn_bodies():
